@@ -17,7 +17,9 @@ package drvdb
 import (
 	"bytes"
 	"fmt"
+	"runtime"
 	"sort"
+	"strings"
 	"time"
 
 	corestore "cosmossdk.io/core/store"
@@ -374,5 +376,221 @@ func ExecConcurrent(p *drv.Plan) *Result {
 	var tr drv.Tracer
 	tr.Add(fmt.Sprint(sched.Rec), sched.Switches, len(vios), res.Stats["concurrent_snapshots"], res.Stats["concurrent_gets"])
 	res.Trace = fmt.Sprintf("conc-%016x", tr.Sum())
+	return res
+}
+
+// ---------------------------------------------------------------------------
+// Blocked-reader mode: what the cooperative scheduler cannot reach.
+//
+// The scheduler parks tasks at yield points only; an implementation that
+// releases and re-takes its lock between two operations of a batch write
+// without a yield point in the gap (seed C18-4A: "let the readers in every 1024
+// operations") is never parked inside the gap. Real lock semantics reach it:
+// at the first yield offer inside a batch write (the lock is held there) the
+// harness starts a reader goroutine that asks for a snapshot and waits until
+// that goroutine is really blocked on the MemDB's read lock (its stack shows
+// sync.RWMutex.RLock in a waiting state) - or has finished, if no lock stood in
+// its way. Then the writer goes on. Who runs next is decided by the lock, not by
+// timing: if the lock is held until the batch is complete, the reader gets in
+// afterwards and sees the whole batch; if it is released in between, the queued
+// reader gets in there (sync.RWMutex admits the readers that wait when a writer
+// unlocks, before the next writer) and sees a torn batch.
+
+const ModeBlockedReader = "concurrent-blocked"
+
+// GenBlockedReader generates a program of batches, each written with a reader
+// queued behind it.
+func GenBlockedReader(r *sim.Rand, tier string) *drv.Plan {
+	p := GenConcurrent(r, tier)
+	p.Mode = ModeBlockedReader
+	// reader steps are implicit in this mode: keep the writer's steps only
+	var steps []drv.Step
+	for _, s := range p.Steps {
+		if s.Op == "cb.set" || s.Op == "cb.del" || s.Op == "cb.write" {
+			steps = append(steps, s)
+		}
+	}
+	p.Steps = steps
+	return p
+}
+
+// readerState inspects all goroutine stacks and reports whether the goroutine
+// running fn (a function name) is blocked inside sync.RWMutex.RLock.
+func blockedInRLock(fn string) bool {
+	buf := make([]byte, 1<<18)
+	n := runtime.Stack(buf, true)
+	for _, sec := range strings.Split(string(buf[:n]), "\n\n") {
+		if !strings.Contains(sec, fn) {
+			continue
+		}
+		nl := strings.IndexByte(sec, '\n')
+		if nl < 0 {
+			continue
+		}
+		head := sec[:nl]
+		if strings.Contains(head, "running") || strings.Contains(head, "runnable") {
+			continue
+		}
+		if strings.Contains(sec, "RWMutex).RLock") {
+			return true
+		}
+	}
+	return false
+}
+
+func snapshotReader(db corestore.KVStoreWithBatch, rev bool, out chan<- []KV, errc chan<- error) {
+	var it corestore.Iterator
+	var err error
+	if rev {
+		it, err = db.ReverseIterator(nil, nil)
+	} else {
+		it, err = db.Iterator(nil, nil)
+	}
+	if err != nil {
+		errc <- err
+		return
+	}
+	var got []KV
+	for ; it.Valid(); it.Next() {
+		got = append(got, KV{K: cp(it.Key()), V: cp(it.Value())})
+	}
+	_ = it.Close()
+	if rev {
+		for i, j := 0, len(got)-1; i < j; i, j = i+1, j-1 {
+			got[i], got[j] = got[j], got[i]
+		}
+	}
+	out <- got
+}
+
+// ExecBlockedReader executes a blocked-reader program.
+func ExecBlockedReader(p *drv.Plan) *Result {
+	res := &Result{Probes: map[string]int{}, Stats: map[string]int{}}
+	res.Sample = Render(p.Steps, 400)
+	var batches [][]drv.Step
+	var flags []int64
+	var cur []drv.Step
+	view := ""
+	for _, s := range p.Steps {
+		switch s.Op {
+		case "cb.set", "cb.del":
+			if len(s.K) == 0 || (s.Op == "cb.set" && s.V == nil) {
+				continue
+			}
+			cur = append(cur, s)
+			view = s.Codec
+		case "cb.write":
+			if len(cur) > 0 {
+				batches = append(batches, cur)
+				flags = append(flags, s.N)
+				cur = nil
+			}
+		}
+	}
+	if len(batches) == 0 {
+		return res
+	}
+	comps, ok := ParseView(view)
+	if !ok {
+		comps = nil
+	}
+	mem := dbm.NewMemDB()
+	var db corestore.KVStoreWithBatch = mem
+	for _, c := range comps {
+		db = dbm.NewPrefixDB(db, c)
+	}
+	site := "MemDB"
+	if len(comps) > 0 {
+		site = fmt.Sprintf("PrefixDB^%d(MemDB)", len(comps))
+	}
+	state := []KV{}
+	var tr drv.Tracer
+	defer func() { dbm.VerifHooks.Yield = nil }()
+	for i, ops := range batches {
+		after := applyOps(state, ops)
+		b := db.NewBatch()
+		for _, o := range ops {
+			if o.Op == "cb.set" {
+				_ = b.Set(o.K, o.V)
+			} else {
+				_ = b.Delete(o.K)
+			}
+		}
+		outc := make(chan []KV, 1)
+		errc := make(chan error, 1)
+		started := false
+		offers := 0
+		var got []KV
+		finishedEarly := false
+		rev := i%2 == 1
+		dbm.VerifHooks.Yield = func(point string) {
+			offers++
+			if started {
+				return
+			}
+			started = true
+			go snapshotReader(db, rev, outc, errc)
+			// wait until the reader is queued on the lock, or is through
+			deadline := time.Now().Add(5 * time.Second)
+			for time.Now().Before(deadline) {
+				select {
+				case got = <-outc:
+					finishedEarly = true
+					return
+				default:
+				}
+				if blockedInRLock("drvdb.snapshotReader") {
+					res.Probes["blocked_reader.queued"]++
+					return
+				}
+				runtime.Gosched()
+			}
+			res.Probes["blocked_reader.neither-queued-nor-done"]++
+		}
+		var err error
+		if flags[i] == 1 {
+			err = b.WriteSync()
+		} else {
+			err = b.Write()
+		}
+		dbm.VerifHooks.Yield = nil
+		_ = b.Close()
+		if err != nil {
+			res.Violations = append(res.Violations, &drv.Violation{Prop: "C18", Oracle: "C18.batch", Symptom: "error-on-legal-request", Class: "blocked-reader/" + site, Detail: fmt.Sprintf("Write of batch %d: %v", i+1, err), StepID: ops[0].ID})
+			break
+		}
+		if started && !finishedEarly {
+			select {
+			case got = <-outc:
+			case e := <-errc:
+				res.Violations = append(res.Violations, &drv.Violation{Prop: "C18", Oracle: "C18.concurrent", Symptom: "error-on-legal-request", Class: "blocked-reader/" + site, Detail: e.Error(), StepID: ops[0].ID})
+			case <-time.After(20 * time.Second):
+				res.Violations = append(res.Violations, &drv.Violation{Prop: "C18", Oracle: "C18.concurrent", Symptom: "hang", Class: "blocked-reader/" + site, Detail: fmt.Sprintf("a snapshot requested while batch %d was being written never returned", i+1), StepID: ops[0].ID})
+				res.Tainted = true
+			}
+		}
+		if len(res.Violations) > 0 {
+			break
+		}
+		if started {
+			res.Stats["blocked_reader_snapshots"]++
+			if finishedEarly {
+				res.Probes["blocked_reader.through-before-write-ended"]++
+			}
+			if !sameKVs(got, state) && !sameKVs(got, after) {
+				res.Violations = append(res.Violations, &drv.Violation{Prop: "C18", Oracle: "C18.batch-atomic", Symptom: "torn-batch", Class: "blocked-reader/" + site, StepID: ops[0].ID,
+					Detail: fmt.Sprintf("a reader queued on the lock while batch %d (%d operations) was being written got %d pairs %s: neither the contents before the batch (%d pairs %s) nor after it (%d pairs %s)", i+1, len(ops), len(got), clip(fmtKVs(got), 300), len(state), clip(fmtKVs(state), 200), len(after), clip(fmtKVs(after), 200))})
+				break
+			}
+		}
+		if len(ops) > 1000 {
+			res.Probes["concurrent.large-batch"]++
+		}
+		tr.Add(i, len(ops), offers, len(got))
+		state = after
+	}
+	res.Probes["mode.blocked-reader"]++
+	res.NonTrivial = res.Stats["blocked_reader_snapshots"] > 0
+	res.Trace = fmt.Sprintf("blk-%016x-%d", tr.Sum(), len(res.Violations))
 	return res
 }
